@@ -122,7 +122,7 @@ pub type Event = (String, Vec<f64>);
 /// How the draws of a transition are chosen: `prefix[k]` is the alphabet index taken at the k-th choice
 /// point (0 = default). Alphabets (default first):
 ///   momentum : the supplied list of vectors
-///   exp1     : {1, 1e-12, 0.1, 5, 50}
+///   exp1     : {1, 1e-12, 0.1, 5, 50, 3e3, 1e6}
 ///   dir_u    : {0.25, 0.75}
 ///   merge_u  : {0.5, 0, just below n''/(n'+n''), exactly n''/(n'+n''), 1-2^-53}
 ///   accept_u : {0.5, 0, just below min(1,n'/n), exactly that, 1-ulp}   (in the chain's float type)
@@ -186,8 +186,11 @@ pub fn record_with<R>(script: Script, f: impl FnOnce() -> R) -> (Result<R, Strin
                     }
                 }
                 "nuts.exp1" => {
-                    let c = choose(&mut g, 5, "exp1");
-                    vals[0] = [1.0, 1e-12, 0.1, 5.0, 50.0][c as usize];
+                    // 3e3 and 1e6 put the slice level far below the start energy: leaves whose energy error lies in
+                    // [1000, 1000 + e) are NOT divergent under Algorithm 6 (the test is against the slice level log u,
+                    // not against the initial energy)
+                    let c = choose(&mut g, 7, "exp1");
+                    vals[0] = [1.0, 1e-12, 0.1, 5.0, 50.0, 3e3, 1e6][c as usize];
                 }
                 "nuts.dir_u" => {
                     let c = choose(&mut g, 2, "dir");
